@@ -4,7 +4,7 @@
    [quad H x] is x^T H x, [mget H a b] is H[a,b];
    [nb_ok nb]: every neighbour index is in range and the neighbour relation is symmetric (as a multiset of
    ordered pairs); [upairs nb] are the neighbouring pairs (i,k), i < k, with multiplicity. *)
-From Coq Require Import ZArith List Bool Reals.
+From Coq Require Import ZArith List Bool Reals Lra.
 From PAV Require Import Base.Res Base.NumOps Base.Sum Model.C07 Proofs.C07.
 Import ListNotations.
 Local Open Scope R_scope.
@@ -179,6 +179,41 @@ Theorem C07_assembly_quadratic_form : forall (Bs : list (list (list R))),
   forall x, @quad ROps (@block_diag ROps Bs) x = block_quad Bs x.
 Proof. exact T_block_quad. Qed.
 
+(* regularization_matrix_reduced (rows / columns of the objects without regularization deleted with numpy.delete at
+   no_regularization_index_list) is the assembly of the regularized objects only, in their order *)
+Theorem C07_reduced_is_assembly_of_regularized : forall (objs : list (nat * option (list (list R)))),
+  Forall (fun o => match snd o with Some H => length H = fst o /\ Forall (fun r => length r = fst o) H | None => True end) objs ->
+  @inversion_matrix_reduced ROps objs = @inversion_matrix ROps (filter (@has_reg ROps) objs).
+Proof. exact T_reduced. Qed.
+
+(* ---------------- rectangular meshes: the neighbour table (finite sweep, NOT for all shapes) ----------------
+   For every shape 2..10 x 2..10 the model of mesh_util.rectangular_neighbors_from (six region loops as sequential writes)
+   is the 4-neighbourhood of the H x W grid, whose relation is in range and symmetric: [nb_ok] holds, so the theorems
+   above apply to these meshes.  Proved by computation inside Coq; larger shapes are not covered by a theorem. *)
+Theorem C07_rect_neighbors_upto_10 : forall H W, (2 <= H <= 10)%nat -> (2 <= W <= 10)%nat ->
+  rect_neighbors H W = map (map Z.of_nat) (grid_rows H W) /\ nb_ok (grid_rows H W) = true.
+Proof. exact T_rect_upto_10. Qed.
+
+(* ---------------- kernel schemes (GaussianKernel, ExponentialKernel): PARTIAL ----------------
+   The covariance assembly (for every profile [kern] of the squared distance) is square and symmetric. *)
+Theorem C07_covariance_size_symmetric : forall (eps : R) (kern : R -> R) (pts : list (R * R)),
+  (length (@cov_matrix ROps eps kern pts) = length pts /\ Forall (fun r => length r = length pts) (@cov_matrix ROps eps kern pts))
+  /\ forall a b, (a < length pts)%nat -> (b < length pts)%nat ->
+       @mget ROps (@cov_matrix ROps eps kern pts) a b = @mget ROps (@cov_matrix ROps eps kern pts) b a.
+Proof. exact (fun eps kern pts => conj (T_cov_size eps kern pts) (T_cov_sym eps kern pts)). Qed.
+(* coefficient * inverse is symmetric positive definite -- GIVEN that the covariance matrix is positive definite (NOT proved
+   here: for Gaussian / exponential profiles and distinct points this is Bochner's theorem) and that numpy.linalg.inv
+   honours its contract C (K x) = x.  Hence the name. *)
+Theorem C07_kernel_scheme_spd_partial : forall (eps : R) (kern : R -> R) (pts : list (R * R)) (K : list (list R)) (coef : R),
+  (forall x, length x = length pts -> (exists i, nth i x 0 <> 0) -> 0 < @quad ROps (@cov_matrix ROps eps kern pts) x) ->
+  (length K = length pts /\ Forall (fun r => length r = length pts) K) ->
+  (forall x, length x = length pts -> @mat_vec ROps (@cov_matrix ROps eps kern pts) (@mat_vec ROps K x) = x) ->
+  0 < coef ->
+  (forall a b, (a < length pts)%nat -> (b < length pts)%nat ->
+     @mget ROps (@scale_matrix ROps coef K) a b = @mget ROps (@scale_matrix ROps coef K) b a)
+  /\ forall x, length x = length pts -> (exists i, nth i x 0 <> 0) -> 0 < @quad ROps (@scale_matrix ROps coef K) x.
+Proof. exact T_kernel_partial. Qed.
+
 (* ---------------- non-vacuity ---------------- *)
 (* a 2x3 rectangular mesh: neighbour lists as rectangular_neighbors_from returns them *)
 Example C07_nb_ok_rect23 : nb_ok [[1; 3]; [0; 2; 4]; [1; 5]; [0; 4]; [1; 3; 5]; [2; 4]]%nat = true.
@@ -194,6 +229,20 @@ Example C07_split_rows_ok :
 Proof. vm_compute. reflexivity. Qed.
 Example C07_prows_ok : prows_ok [[(0%nat, 1)]; [(1%nat, /2); (0%nat, /2)]; [(1%nat, 1)]; [(0%nat, 1)]; [(1%nat, 1)]; [(0%nat, /2); (1%nat, /2)]; [(0%nat, 1)]; [(1%nat, 1)]] = true.
 Proof. vm_compute. reflexivity. Qed.
+(* the hypotheses of C07_kernel_scheme_spd_partial are satisfiable: one point, constant profile, C = [[2]], K = [[1/2]] *)
+Example C07_kernel_hypotheses_satisfiable :
+  let pts := [(0, 0)] in let kern := fun _ : R => 1 in let K := [[/2]] in
+  (forall x, length x = length pts -> (exists i, nth i x 0 <> 0) -> 0 < @quad ROps (@cov_matrix ROps 1 kern pts) x)
+  /\ (length K = length pts /\ Forall (fun r => length r = length pts) K)
+  /\ (forall x, length x = length pts -> @mat_vec ROps (@cov_matrix ROps 1 kern pts) (@mat_vec ROps K x) = x).
+Proof.
+  cbv zeta. split; [|split].
+  - intros [|a [|b x]] Hl [i Hi]; try discriminate.
+    destruct i as [|[|i]]; cbn in Hi; try lra.
+    vm_compute. nra.
+  - split; [reflexivity|repeat constructor].
+  - intros [|a [|b x]] Hl; try discriminate. vm_compute. f_equal. lra.
+Qed.
 Example C07_nonzero_vector : exists i, nth i [0; 0; 1; 0; 0; 0] 0 <> 0.
 Proof. exists 2%nat. cbn. apply R1_neq_R0. Qed.
 
@@ -226,6 +275,10 @@ Print Assumptions C07_split_positive_definite.
 Print Assumptions C07_reg_split_row.
 Print Assumptions C07_split_cross_pipeline.
 Print Assumptions C07_qf_split_meaning.
+Print Assumptions C07_reduced_is_assembly_of_regularized.
+Print Assumptions C07_rect_neighbors_upto_10.
+Print Assumptions C07_covariance_size_symmetric.
+Print Assumptions C07_kernel_scheme_spd_partial.
 Print Assumptions C07_block_placement_in_order.
 Print Assumptions C07_assembly_size.
 Print Assumptions C07_none_is_zero_block.
